@@ -50,7 +50,7 @@ pub fn observe(p: &Point) -> Result<Urg, String> {
         mem_factory()
     };
     let _keep = &dir;
-    let storage: Arc<dyn Storage> = factory().map_err(|e| format!("opening storage: {e:#}"))?;
+    let storage: Arc<dyn Storage> = factory().map_err(|e| format!("opening storage: {e:#}"))?.served;
     let c = case::client_uuid(12, 0);
     let v1 = case::fresh_uuid(1);
     (|| -> anyhow::Result<()> {
